@@ -140,7 +140,7 @@ def run_check(pid, tier, seed):
     if hasattr(pm, "extra_obligations"):
         try:
             extra = pm.extra_obligations(L, S)
-            backends.discharge_all([v for v in extra if v.status is None], t_z3_ms=t_z3, t_cvc5_ms=t_z3, use_cvc5=True, parallel=False)
+            backends.discharge_all([v for v in extra if v.status is None], t_z3_ms=t_z3, t_cvc5_ms=t_z3, use_cvc5=True, parallel=True)
             for vc in extra:
                 all_vcs.append(types.SimpleNamespace(
                     name=vc.name, kind=vc.kind, role=vc.role, props=vc.props, where=vc.where, note=vc.note,
@@ -155,16 +155,16 @@ def run_check(pid, tier, seed):
     todo = [vc for vc in vcs if vc.status is None]
     payload = [(vc.smt2, t_z3, t_z3, True, True, tuple(vc.derived)) for vc in todo]
     if payload:
-        with ProcessPoolExecutor(max_workers=cores, mp_context=mp.get_context("fork")) as pool:
-            res = list(pool.map(backends._solve_one, payload, chunksize=1))
+        if True:
+            res = backends.solve_many(payload, cores)
             retry = []
             for vc, (st, be, dt, info) in zip(todo, res):
                 vc.status, vc.backend, vc.time, vc.detail = st, be, dt, info
                 if getattr(vc, "filtered", False) and st in ("undecided", "refuted"):
                     retry.append(vc)
             if retry:
-                res2 = list(pool.map(backends._solve_one, [(vc.smt2_full, t_z3, t_z3, True, True, tuple(vc.derived_full))
-                                                           for vc in retry], chunksize=1))
+                res2 = backends.solve_many([(vc.smt2_full, t_z3, t_z3, True, True, tuple(vc.derived_full))
+                                            for vc in retry], cores, budget_s=2.0 * t_z3 / 1000.0 + 60.0)
                 for vc, (st, be, dt, info) in zip(retry, res2):
                     vc.time += dt
                     vc.status, vc.backend, vc.detail = st, be, info
@@ -211,7 +211,14 @@ def run_check(pid, tier, seed):
                          "failed": ["clause %s is false on the real code; observed %s" % (rp.get("clause"), rp.get("observed"))]}
             elif hasattr(pm, "concretize"):
                 try:
-                    found = pm.concretize(vc, tier, seed)
+                    # the bounded search for a failing input is run once per check (it does not depend on the obligation
+                    # unless the property module says so)
+                    if getattr(pm, "CONCRETIZE_PER_OBLIGATION", False):
+                        found = pm.concretize(vc, tier, seed)
+                    else:
+                        if "conc" not in S.__dict__:
+                            S.conc = pm.concretize(vc, tier, seed)
+                        found = S.conc
                 except Exception as e:
                     found = None
                     S.errors.append("concretize(%s): %s" % (vc.name, e))
@@ -274,6 +281,8 @@ def run_check(pid, tier, seed):
 def _job(job):
     """worker: verify one function case / one lemma / run the bounded stand-in; returns plain data"""
     pid, kind, name, case, t_z3, inner = job
+    import faulthandler, signal as _sig
+    faulthandler.register(_sig.SIGUSR1, file=sys.stderr, all_threads=False)    # kill -USR1 <worker>: where is it?
     import warnings as _w
     _w.filterwarnings("ignore")
     from pyvc import loader as ldr, verify, backends, contract, lemma as lem, npstub, session
